@@ -3,6 +3,7 @@ package doubles
 import (
 	"context"
 	"fmt"
+	"strings"
 	"sync"
 
 	"github.com/emersion/go-ical"
@@ -58,6 +59,10 @@ type CalBackend struct {
 	// Errors to return from the principal / home-set lookups.
 	PrincipalErr, HomeSetErr error
 
+	// LenientSlash: collections are found with or without their trailing
+	// slash (many real backends normalise; a handler may ask either way).
+	LenientSlash bool
+
 	mu        sync.Mutex
 	Calendars []caldav.Calendar
 	Objects   []caldav.CalendarObject // in listing order; Path decides membership
@@ -110,7 +115,7 @@ func (b *CalBackend) GetCalendar(ctx context.Context, path string) (*caldav.Cale
 	b.mu.Lock()
 	defer b.mu.Unlock()
 	for _, c := range b.Calendars {
-		if c.Path == path {
+		if c.Path == path || (b.LenientSlash && strings.TrimSuffix(c.Path, "/") == strings.TrimSuffix(path, "/")) {
 			c := c
 			return &c, nil
 		}
